@@ -46,6 +46,11 @@ type Sched struct {
 	selfGid  int64
 	stackBuf []byte
 	polls    int
+	// goroutines that existed before this scheduler (left-overs of the previous run in the same process whose
+	// teardown had not finished, e.g. under CPU load: its heartbeat loop, its shutdown goroutine) are not actors of
+	// this run: the verifYield hook is process-global, so their yields arrive here and must pass through.
+	// (goroutine ids are unique but NOT monotonic -- they are handed out in per-P batches -- hence a set.)
+	foreign map[int64]bool
 }
 
 func goid() int64 {
@@ -59,8 +64,16 @@ func goid() int64 {
 }
 
 func NewSched(namer func(gid int64, point string) string) *Sched {
-	return &Sched{actors: map[string]*Actor{}, byGid: map[int64]*Actor{}, namer: namer, selfGid: goid(),
-		stackBuf: make([]byte, 1<<18)}
+	s := &Sched{actors: map[string]*Actor{}, byGid: map[int64]*Actor{}, namer: namer, selfGid: goid(),
+		stackBuf: make([]byte, 1<<18), foreign: map[int64]bool{}}
+	n := runtime.Stack(s.stackBuf, true)
+	for _, m := range gHeader.FindAllSubmatch(s.stackBuf[:n], -1) {
+		id, _ := strconv.ParseInt(string(m[1]), 10, 64)
+		if id != s.selfGid {
+			s.foreign[id] = true
+		}
+	}
+	return s
 }
 
 // Register makes the calling goroutine the actor `name` (state running).
@@ -90,6 +103,9 @@ func (s *Sched) Finish(a *Actor, panicv string) {
 // Yield parks the calling goroutine at `point` until released.
 func (s *Sched) Yield(point string) {
 	gid := goid()
+	if s.foreign[gid] {
+		return // a goroutine of an earlier run (the map is read-only after NewSched)
+	}
 	s.mu.Lock()
 	if s.free {
 		s.mu.Unlock()
